@@ -329,10 +329,56 @@ func conformanceScenarios(tier string) []*Scenario {
 	return out
 }
 
+// injectRejects returns h with, before every op, one transaction of the scenario's menu that the
+// emulation rejects in that state (when there is one signed by a known actor). Rejected ops leave the
+// state unchanged, so the result is still a history of the scenario; replaying it through the real
+// pipeline checks that a really signed failing transaction is refused by the node as well and leaves
+// the store and balances as the emulation says (C18's "unchanged at the transaction boundary").
+func injectRejects(w *world.World, sc *Scenario, h []Op) ([]Op, int) {
+	n, _, err := replayOps(w, sc, sc.Preamble, nil)
+	if err != nil {
+		return h, 0
+	}
+	var out []Op
+	injected := 0
+	bud := Budget{}
+	for k := range sc.Budget {
+		bud[k] = 9
+	}
+	for _, op := range h {
+		for _, cand := range sc.Menu(n.st, bud) {
+			if !isTxKind(cand.Kind) || cand.Kind == "update_params" {
+				continue
+			}
+			if _, ok := world.Actors[signerOf(cand)]; !ok {
+				continue
+			}
+			cctx, _ := n.ctx.CacheContext()
+			_, r := cand.Apply(w, cctx.WithEventManager(sdk.NewEventManager()))
+			if !r.OK() {
+				cand.Budget = ""
+				out = append(out, cand)
+				injected++
+				break
+			}
+		}
+		out = append(out, op)
+		cctx, _ := n.ctx.CacheContext()
+		pctx, _ := op.Apply(w, cctx.WithEventManager(sdk.NewEventManager()))
+		st, err := w.Snapshot(pctx)
+		if err != nil {
+			return h, 0
+		}
+		n = &node{ctx: pctx, st: st}
+	}
+	return out, injected
+}
+
 // Conformance explores the conformance scenarios (no monitors), and replays every maximal history.
 func Conformance(prop, tier string, workers int, maxHist int) (conformance, []map[string]any, error) {
 	var total conformance
 	var per []map[string]any
+	rejectsInjected := 0
 	for _, sc := range conformanceScenarios(tier) {
 		rr, err := Run(sc, RunOpts{Workers: workers, NewMonitors: func() []Monitor { return nil }, PrefixDepth: 2, TermsCap: 1 << 20})
 		if err != nil {
@@ -344,12 +390,22 @@ func Conformance(prop, tier string, workers int, maxHist int) (conformance, []ma
 			hs = hs[:maxHist]
 			capped = true
 		}
+		// every second history also carries really signed transactions that must fail
+		if wr, err := world.New(sc.Cfg); err == nil {
+			for i := range hs {
+				if i%2 == 1 {
+					h2, k := injectRejects(wr, sc, hs[i])
+					hs[i] = h2
+					rejectsInjected += k
+				}
+			}
+		}
 		c := RunConformance(prop, sc, hs, workers)
 		total.Validated += c.Validated
 		total.Blocks += c.Blocks
 		total.Txs += c.Txs
 		total.Failures = append(total.Failures, c.Failures...)
-		per = append(per, map[string]any{"scenario": sc.Name, "maximal_histories": len(rr.Terminals), "replayed": len(hs), "capped": capped, "conform": c.Validated, "blocks": c.Blocks, "signed_txs": c.Txs})
+		per = append(per, map[string]any{"scenario": sc.Name, "maximal_histories": len(rr.Terminals), "replayed": len(hs), "capped": capped, "conform": c.Validated, "blocks": c.Blocks, "signed_txs": c.Txs, "failing_signed_txs_injected_so_far": rejectsInjected})
 	}
 	return total, per, nil
 }
